@@ -126,6 +126,12 @@ func runChild(c *Ctx, mode string, cases []json.RawMessage, lo, hi int, o ChildO
 		procs = 2
 	}
 	cmd.Env = append(cmd.Env, fmt.Sprintf("GOMAXPROCS=%d", procs), fmt.Sprintf("VCHECK_RLIMIT_AS=%d", o.RlimitAS), "VERIF_SEED="+strconv.FormatInt(c.Seed, 10), "VERIF_TIER="+c.Tier)
+	// own temp directory per child, removed when the child is gone (also after a crash or a kill)
+	tmp := base + ".tmp"
+	if os.MkdirAll(tmp, 0o755) == nil {
+		cmd.Env = append(cmd.Env, "TMPDIR="+tmp)
+		defer os.RemoveAll(tmp)
+	}
 	lf, _ := os.Create(lg)
 	cmd.Stdout = lf
 	cmd.Stderr = lf
